@@ -5,6 +5,14 @@ HERE = os.path.dirname(os.path.abspath(__file__))
 BASELINE = "cd /repo && /venv/bin/python -m pytest -ra -q -p no:cacheprovider --timeout=900 --continue-on-collection-errors"
 
 CLAIMED = {
+    'C04': dict(
+        design='4.4',
+        text='Kernel only: for 13 Pointwise classes (Cos, Sin, Tan, ArcSin, ArcCos, ArcTan, CosH, SinH, TanH, Exp, Log, Minimum, Maximum; 15 table entries) a Lean 4 theorem '
+             'HasDerivAt (numpy meaning of the class, read from _compile_expression) (the deriv lambda, translated mechanically from its AST) is generated from the current source on every run '
+             'and checked by Lean against Mathlib, for all real arguments in the domain of differentiability. A failed proof is followed by a native central-difference search for a failing input.',
+        note='The chain-rule plumbing through arrays (einsum), Multiply/Inverse/Determinant/Product/Polyval/loops/Inflate/Take derivatives, ArcTan2/ArcTanH/Sinc/Power, derivative shapes and the '
+             'integer zero rule are OUTSIDE. Trusted: Lean kernel + Mathlib, the AST->Lean translator, numpy functions = real functions, floats = reals. Cold start of Lean+Mathlib takes ~4 min.',
+        technique='contract-based deductive verification: Lean 4 + Mathlib theorems generated from the AST of the deriv tables'),
     'C20': dict(
         design='4.20',
         text='Deductive proof of the dimension algebra kernel: each dispatch handler of SI.Quantity (unary, add-like, mul-like, div-like, laplace, sqrt, setitem, pow-like, unary-op, '
@@ -116,7 +124,7 @@ NOT_APPLICABLE = {
     'C02': 'whole-DAG faithful translation into generated numpy programs: no function-level postcondition carries it; would need a denotational semantics of ~150 node classes and of the generated code (DESIGN 4.2)',
     'C03': 'history/non-interference property of a program that exists only as a generated string; no per-function contract expresses it (DESIGN 4.3)',
 }
-PENDING = ['C04', 'C08', 'C10', 'C16', 'C18', 'C19']
+PENDING = ['C08', 'C10', 'C16', 'C18', 'C19']
 
 
 def main():
